@@ -3,7 +3,10 @@ from jsonschema.exceptions import ValidationError
 
 
 def dependencies_draft3(validator, dependencies, instance, schema):
-    if not validator.is_type(instance, "object"):
+    if (
+        not validator.is_type(instance, "object") or
+        not validator.is_type(dependencies, "object")
+    ):
         return
 
     for property, dependency in dependencies.items():
